@@ -68,6 +68,25 @@ pub fn run(r: &mut Report) {
             }
         }
     }
+    // a step's links are the files named exactly "<step>.<short id>.link": the link of a sibling step whose name merely BEGINS
+    // with this step's name (same functionary) is never read for it, wherever the file system lists it
+    {
+        let owner = key(1); let ka = key(2);
+        let strict = || vec![ArtifactRule::Allow(VirtualTargetPath::new("good".into()).unwrap()), ArtifactRule::Disallow(VirtualTargetPath::new("*".into()).unwrap())];
+        let mut outcomes: std::collections::BTreeMap<String, Vec<String>> = Default::default();
+        let siblings = ["build-a", "build-b", "build-m", "build-z", "build.x", "buildx", "build-", "build0", "build_", "buildZ", "build-arm", "build~", "build.", "build-p"];
+        for sib in siblings { for base_present in [true, false] {
+            let d = tmpdir();
+            if base_present { write_link(d.path(), "build", ka.key_id(), &signed_link(&link("build", &[], &[("good", 1)]), &[&ka])); }
+            write_link(d.path(), sib, ka.key_id(), &signed_link(&link(sib, &[], &[("other", 2)]), &[&ka]));
+            let lay = signed_layout(&layout(vec![step("build", 1, &[&ka], allow_all(), strict()), step(sib, 1, &[&ka], allow_all(), allow_all())], vec![], &[&ka], 30), &[&owner]);
+            let res = no_panic(|| in_toto_verify(&lay, owner_keys(&[&owner]), d.path().to_str().unwrap(), None).is_ok());
+            outcomes.entry(format!("link of step build {}: {:?}", if base_present { "present" } else { "missing" }, res)).or_default().push(sib.to_string());
+        } }
+        let ok = outcomes.len() == 2 && outcomes.contains_key("link of step build present: Ok(true)") && outcomes.contains_key("link of step build missing: Ok(false)");
+        r.case("sibling-step-whose-name-begins-with-this-one", json!({"siblings": siblings}), "Ok with the step's own link, Err without it, for every sibling name",
+               format!("{:?}", outcomes.iter().map(|(k, v)| format!("{} x{} {:?}", k, v.len(), if v.len() < 14 { v.clone() } else { vec![] })).collect::<Vec<_>>()), ok);
+    }
     // only the link directory itself is read for a step: a same-named link file lying in a sub-directory (an archived run, a
     // delegation's directory) never replaces or joins the top-level one, whatever the sub-directory is called and wherever the
     // file system lists it
